@@ -336,7 +336,7 @@ fn check_simulation(g: &G, seed: u64) {
             _ => {
                 if p.iter().any(|(s, _)| tbl[*s]) { fail(format!("C03 simulation: eventually-counterexample {:?} for {} contains a state that satisfies the condition {}", p, NAMES[i], tag)); }
                 let succ = g.succ(last);
-                let closes_cycle = succ.iter().any(|t| p.iter().any(|(s, _)| s == t));
+                let closes_cycle = p[..p.len() - 1].iter().any(|(s, _)| *s == last); // the repeated state is shown on the path
                 if !succ.is_empty() && !closes_cycle {
                     fail(format!("C03 simulation: eventually-counterexample {:?} for {} neither ends in a dead end nor closes a cycle: it can be extended inside the boundary to {:?} {}", p, NAMES[i], succ, tag));
                 }
